@@ -167,6 +167,10 @@ func HarnessC01StepRead() { zzStep([]int{0, 1, 2, 6, 7}) }
 // HarnessC01StepWrite: Put / DeleteBlock.
 func HarnessC01StepWrite() { zzStep([]int{3, 5}) }
 
+// HarnessC01StepFullDigest: Get/Has/GetSize/Put/DeleteBlock with all 32 digest bytes of both sha2-256 pool entries
+// symbolic (prefixed keys, existence check on), every state of those two entries.
+func HarnessC01StepFullDigest() { zzStep([]int{0, 1, 2, 3, 5}) }
+
 // HarnessC01StepPutMany: batched puts.
 func HarnessC01StepPutMany() { zzStep([]int{4}) }
 
@@ -183,7 +187,10 @@ func zzStep(ops []int) {
 	id := &zzEnt{m: zzMustEncode(ip, mh.IDENTITY), data: ip, ident: true}
 	pool := []*zzEnt{a, b, id}
 
-	writeThrough := verifrt.NondetBool("writeThrough")
+	writeThrough := false
+	if verifrt.Param("NOWRITETHROUGH", 0) == 0 {
+		writeThrough = verifrt.NondetBool("writeThrough")
+	}
 	noPrefix := false
 	if verifrt.Param("PREFIXONLY", 0) == 0 {
 		noPrefix = verifrt.NondetBool("noPrefix")
@@ -193,6 +200,9 @@ func zzStep(ops []int) {
 	rec := &zzRecDS{MapDatastore: ds.NewMapDatastore()}
 	// arbitrary pre-state, written behind the blockstore's back with the reference key
 	for _, e := range pool {
+		if e.ident && verifrt.Param("IDENTABSENT", 0) != 0 {
+			continue
+		}
 		if verifrt.NondetBool("present") {
 			e.present = true
 			if err := rec.MapDatastore.Put(ctx, ds.RawKey(zzRefKey(e.m, noPrefix)), e.data); err != nil {
@@ -208,10 +218,11 @@ func zzStep(ops []int) {
 	if noPrefix {
 		opts = append(opts, NoPrefix())
 	}
+	op := ops[verifrt.NondetRange("op", 0, len(ops)-1)]
 	var bs Blockstore = NewBlockstore(rec, opts...)
 	var vbs *zzViewBS
 	if withID {
-		if verifrt.NondetBool("viewerBacking") {
+		if op == 6 && verifrt.NondetBool("viewerBacking") {
 			vbs = &zzViewBS{Blockstore: bs}
 			bs = vbs
 		}
@@ -221,7 +232,6 @@ func zzStep(ops []int) {
 	// model view through the store under test: the identity store makes identity CIDs always present
 	has := func(e *zzEnt) bool { return e.present || (withID && e.ident) }
 
-	op := ops[verifrt.NondetRange("op", 0, len(ops)-1)]
 	switch op {
 	case 0: // Get
 		i, c := zzPickCid(pool, "t")
